@@ -300,10 +300,10 @@ def assemble(ub):
     L.append('void __cxx_global_init(void);')
     # ghost event counters (DESIGN 4.4): every call of an opaque callee is counted
     # and its scalar arguments are remembered; std::move(*this) is counted too
-    L.append('int g_moved_self;')
+    L.append('unsigned g_moved_self;')
     cnts, allg = ['g_moved_self'], ['g_moved_self']
     for sname, (ret, atys) in em.stubs.items():
-        L.append('int g_cnt_%s;' % sname[6:])
+        L.append('unsigned g_cnt_%s;' % sname[6:])
         cnts.append('g_cnt_%s' % sname[6:])
         allg.append('g_cnt_%s' % sname[6:])
         if ret.strip().endswith('*') and not (sname in us.functions and us.functions[sname].assume_only):
